@@ -150,7 +150,7 @@ def run(prog):
     r = strip(fn.terms.ret)
     errs = []
     if not (r[0] == "gamma" and show(strip(r[1])) in ("(arg2 Eq arg3)", "(arg3 Eq arg2)")):
-        errs.append("no equal-arguments case")
+        errs.append("%sno equal-arguments case" % ("" if mir.is_call(r, "query") else "?"))
     else:
         arms = {("F" if lab == "0" else "T"): strip(v) for lab, v in r[2]}
         if arms.get("T") not in (("param", 2), ("param", 3)):
@@ -164,7 +164,7 @@ def run(prog):
             ok = lo[0] == "field" and hi[0] == "field" and lo[2] == "0" and hi[2] == "1" and strip(lo[1]) == strip(hi[1])
             pair = strip(lo[1]) if ok else None
             if not ok or pair[0] != "gamma":
-                errs.append("the query endpoints are not the two components of one ordered pair")
+                errs.append("?the query endpoints are not the two components of one ordered pair")
             else:
                 c = strip(pair[1])
                 if not (c[0] == "bin" and c[1] in ("Lt", "Le", "Gt", "Ge")):
